@@ -270,7 +270,10 @@ def driftLine (args0 impl : List String) : String :=
      | none => "bad-op | |")
   | some a =>
     if (match a with | some r => decide (r < 0 ∨ r ≥ 4294967296) | none => false) then
-      s!"rejected | C19:na | outOfRange"
+      -- not a 32-bit rate at all: C19 allows only a refusal (clap's usage error or an error from `main`), never a
+      -- publication (whatever a wider intermediate type would make of the value)
+      let published := match impl with | "ok" :: _ => true | _ => false
+      s!"rejected | {verdict "C19" true (!published)} | outOfRange"
     else
       let an := a.map Int.toNat
       let m := driftPpb an
@@ -286,7 +289,7 @@ def driftLine (args0 impl : List String) : String :=
         | none => ["omitted"]
         | some r => (if r * 1000 ≥ 4294967296 then ["unrepresentable"] else ["representable"]) ++
                     (if r + 2 ≥ 4294968 ∧ r ≤ 4294970 then ["boundary"] else [])
-      let tags := tags ++ (if mods.contains "@prior" then ["priorLive"] else []) ++ (if mods.contains "@env" then ["envSet"] else [])
+      let tags := tags ++ (if mods.contains "@prior" then ["priorLive"] else []) ++ (if mods.contains "@env" then ["envSet"] else []) ++ (if mods.contains "@phc" then ["phcOptions"] else [])
       s!"{mtxt} | {v} | {String.intercalate "," tags}"
 
 /-! ### seqlock scenarios -/
